@@ -41,6 +41,7 @@ type Net struct {
 	Deliveries     int
 	seqDial        int
 	Faults         map[string]int // fault kind -> fired count
+	fmu            sync.Mutex     // guards Faults
 	onNewPair      func(p *Pair)
 }
 
@@ -48,7 +49,11 @@ func NewNet() *Net {
 	return &Net{pairs: map[string]*Pair{}, Faults: map[string]int{}}
 }
 
-func (n *Net) fired(kind string) { n.Faults[kind]++ }
+func (n *Net) fired(kind string) {
+	n.fmu.Lock()
+	n.Faults[kind]++
+	n.fmu.Unlock()
+}
 
 // half is one direction of a pair.
 type half struct {
@@ -77,6 +82,13 @@ type Pair struct {
 	Name string
 	A, B *Conn // A = initiator, B = acceptor
 	net  *Net
+	// mu guards both connections of the pair and their two directions.  Connection
+	// goroutines take only this lock (never Net.mu): goroutines of different connections
+	// then share no lock of the simulator, which is what lets a -race worker see an
+	// unsynchronised access between two connections of the system under test.  The
+	// controller takes Net.mu first, then the pair's mu.
+	mu  sync.Mutex
+	ops []Op
 }
 
 type Conn struct {
@@ -104,15 +116,21 @@ type Conn struct {
 func (c *Conn) key() string { return c.pair.Name + "/" + c.side }
 
 func (n *Net) logOp(c *Conn, kind string, k int) {
-	n.ops = append(n.ops, Op{c.key(), kind, k})
+	c.pair.ops = append(c.pair.ops, Op{c.key(), kind, k})
 }
 
 // TakeOps returns the canonical form of the operations since the last call:
 // per-connection sequences, sorted by connection.
 func (n *Net) TakeOps() string {
 	n.mu.Lock()
-	ops := n.ops
-	n.ops = nil
+	var ops []Op
+	for _, name := range n.names {
+		p := n.pairs[name]
+		p.mu.Lock()
+		ops = append(ops, p.ops...)
+		p.ops = nil
+		p.mu.Unlock()
+	}
 	n.mu.Unlock()
 	if len(ops) == 0 {
 		return ""
@@ -181,6 +199,7 @@ func (n *Net) Pending() []Pending {
 	var out []Pending
 	for _, name := range n.names {
 		p := n.pairs[name]
+		p.mu.Lock()
 		for _, d := range []string{"ab", "ba"} {
 			h := p.A.out
 			if d == "ba" {
@@ -193,6 +212,7 @@ func (n *Net) Pending() []Pending {
 				out = append(out, Pending{p, d, len(h.inflight)})
 			}
 		}
+		p.mu.Unlock()
 	}
 	return out
 }
@@ -202,6 +222,8 @@ func (n *Net) Pending() []Pending {
 func (n *Net) Deliver(p *Pair, dir string, k int) {
 	n.mu.Lock()
 	defer n.mu.Unlock()
+	p.mu.Lock()
+	defer p.mu.Unlock()
 	src, dst := p.A, p.B
 	if dir == "ba" {
 		src, dst = p.B, p.A
@@ -238,6 +260,8 @@ func (n *Net) Deliver(p *Pair, dir string, k int) {
 func (n *Net) Reset(c *Conn) {
 	n.mu.Lock()
 	defer n.mu.Unlock()
+	c.pair.mu.Lock()
+	defer c.pair.mu.Unlock()
 	peer := c.peer()
 	c.out.inflight = nil
 	c.out.finQueued = false
@@ -255,6 +279,8 @@ func (n *Net) Reset(c *Conn) {
 func (n *Net) Stall(p *Pair, dir string, on bool) {
 	n.mu.Lock()
 	defer n.mu.Unlock()
+	p.mu.Lock()
+	defer p.mu.Unlock()
 	h := p.A.out
 	if dir == "ba" {
 		h = p.B.out
@@ -295,21 +321,21 @@ func faultErr(kind, op string) error {
 
 func (c *Conn) Read(b []byte) (int, error) {
 	n := c.net
-	n.mu.Lock()
+	c.pair.mu.Lock()
 	c.ReadOps++
 	if c.Faults.ReadErrAt != 0 && c.ReadOps == c.Faults.ReadErrAt {
 		n.fired("read_error_" + c.Faults.ReadErrKind)
 		n.logOp(c, "rE", 0)
-		n.mu.Unlock()
+		c.pair.mu.Unlock()
 		return 0, opErr("read", c, faultErr(c.Faults.ReadErrKind, "read"))
 	}
 	for {
 		if c.closed {
-			n.mu.Unlock()
+			c.pair.mu.Unlock()
 			return 0, opErr("read", c, net.ErrClosed)
 		}
 		if len(b) == 0 {
-			n.mu.Unlock()
+			c.pair.mu.Unlock()
 			return 0, nil
 		}
 		if len(c.in.readable) > 0 {
@@ -320,17 +346,17 @@ func (c *Conn) Read(b []byte) (int, error) {
 			k := copy(b[:lim], c.in.readable)
 			c.in.readable = c.in.readable[k:]
 			n.logOp(c, "r", k)
-			n.mu.Unlock()
+			c.pair.mu.Unlock()
 			return k, nil
 		}
 		if c.in.rst {
 			n.logOp(c, "rRST", 0)
-			n.mu.Unlock()
+			c.pair.mu.Unlock()
 			return 0, opErr("read", c, os.NewSyscallError("read", syscall.ECONNRESET))
 		}
 		if c.in.finDelivered {
 			n.logOp(c, "rEOF", 0)
-			n.mu.Unlock()
+			c.pair.mu.Unlock()
 			return 0, io.EOF
 		}
 		var timer *time.Timer
@@ -339,7 +365,7 @@ func (c *Conn) Read(b []byte) (int, error) {
 			d := time.Until(c.rdl)
 			if d <= 0 {
 				n.logOp(c, "rTO", 0)
-				n.mu.Unlock()
+				c.pair.mu.Unlock()
 				return 0, opErr("read", c, os.ErrDeadlineExceeded)
 			}
 			timer = time.NewTimer(d)
@@ -349,7 +375,7 @@ func (c *Conn) Read(b []byte) (int, error) {
 			c.rwake = make(chan struct{})
 		}
 		ch := c.rwake
-		n.mu.Unlock()
+		c.pair.mu.Unlock()
 		select {
 		case <-ch:
 		case <-tc:
@@ -357,14 +383,14 @@ func (c *Conn) Read(b []byte) (int, error) {
 		if timer != nil {
 			timer.Stop()
 		}
-		n.mu.Lock()
+		c.pair.mu.Lock()
 	}
 }
 
 func (c *Conn) Write(b []byte) (int, error) {
 	n := c.net
-	n.mu.Lock()
-	defer n.mu.Unlock()
+	c.pair.mu.Lock()
+	defer c.pair.mu.Unlock()
 	c.WriteOps++
 	if c.Faults.WriteErrAt != 0 && c.WriteOps == c.Faults.WriteErrAt {
 		n.fired("write_error_" + c.Faults.WriteErrKind)
@@ -395,8 +421,8 @@ func (c *Conn) Write(b []byte) (int, error) {
 
 func (c *Conn) Close() error {
 	n := c.net
-	n.mu.Lock()
-	defer n.mu.Unlock()
+	c.pair.mu.Lock()
+	defer c.pair.mu.Unlock()
 	c.CloseCalls++
 	if c.closed {
 		return opErr("close", c, net.ErrClosed)
@@ -416,8 +442,8 @@ func (c *Conn) Close() error {
 }
 
 func (c *Conn) Closed() bool {
-	c.net.mu.Lock()
-	defer c.net.mu.Unlock()
+	c.pair.mu.Lock()
+	defer c.pair.mu.Unlock()
 	return c.closed
 }
 
@@ -437,16 +463,15 @@ func (c *Conn) SetDeadline(t time.Time) error {
 	if err := c.SetReadDeadline(t); err != nil {
 		return err
 	}
-	c.net.mu.Lock()
+	c.pair.mu.Lock()
 	c.wdl = t
-	c.net.mu.Unlock()
+	c.pair.mu.Unlock()
 	return nil
 }
 
 func (c *Conn) SetReadDeadline(t time.Time) error {
-	n := c.net
-	n.mu.Lock()
-	defer n.mu.Unlock()
+	c.pair.mu.Lock()
+	defer c.pair.mu.Unlock()
 	if err := c.deadlineFault(); err != nil {
 		return err
 	}
@@ -459,9 +484,8 @@ func (c *Conn) SetReadDeadline(t time.Time) error {
 }
 
 func (c *Conn) SetWriteDeadline(t time.Time) error {
-	n := c.net
-	n.mu.Lock()
-	defer n.mu.Unlock()
+	c.pair.mu.Lock()
+	defer c.pair.mu.Unlock()
 	if err := c.deadlineFault(); err != nil {
 		return err
 	}
@@ -474,14 +498,14 @@ func (c *Conn) SetWriteDeadline(t time.Time) error {
 
 // InflightFirst returns a copy of the first k in-flight bytes of c's output.
 func (c *Conn) InflightLen() int {
-	c.net.mu.Lock()
-	defer c.net.mu.Unlock()
+	c.pair.mu.Lock()
+	defer c.pair.mu.Unlock()
 	return len(c.out.inflight)
 }
 
 func (c *Conn) PeekInflight() []byte {
-	c.net.mu.Lock()
-	defer c.net.mu.Unlock()
+	c.pair.mu.Lock()
+	defer c.pair.mu.Unlock()
 	return append([]byte(nil), c.out.inflight...)
 }
 
@@ -541,11 +565,13 @@ func (l *Listener) Close() error {
 	}
 	// queued, never accepted connections are reset
 	for _, c := range l.q {
+		c.pair.mu.Lock()
 		c.closed = true
 		c.out.rst = true
 		c.in.broken = true
 		c.in.rcvClosed = true
 		c.peer().wakeLocked()
+		c.pair.mu.Unlock()
 	}
 	l.q = nil
 	return nil
